@@ -285,6 +285,38 @@ def rule_any_order(ctx, fx, config):
         ctx.check(okn, "ORDER", "C06:ORDER:any:null-yields-unit", "a null-like plain scalar yields unit", "the null-like edge of deserialize_any does not end in visit_unit", config, ctx.where(f, nbk))
 
 
+def rule_trim(ctx, fx, config):
+    """TRIM: what the scalar parsers strip around a token is YAML white space and line breaks only — `str::trim` strips
+    every Unicode White_Space character (U+00A0, U+2003, U+0085 …), which is content of a plain scalar."""
+    tb = fx.fn(PS + "trim_blanks")
+    ctx.saw(tb)
+    from ..rules import char_consts
+    cc = set()
+    for g in fx.family(tb):
+        cc |= char_consts(g)
+        for b, t in g.calls():
+            for a in t["args"]:
+                with g.deep():
+                    for x in _walk(g.sym_operand(a)):
+                        if len(x) > 2 and x[0] == "const" and x[2] == "char":
+                            cc.add(x[1])
+    ctx.check(cc == {" ", "\t", "\n", "\r"}, "TABLE", "C06:TABLE:trim-alphabet", "blanks stripped around a scalar: space, tab, LF, CR", "trim_blanks strips %s" % sorted(map(repr, cc)), config, ctx.where(tb))
+    readers = [g for g in fx.fns.values() if g.npath.startswith(PS) or g.npath in (DESER + "deserialize_any", DESER + "deserialize_bool")]
+    uni = sorted({g.npath for g in readers for b, t in g.calls() if last_seg(fx.callee_decl(t)) in ("trim", "trim_start", "trim_end") and "str" in fx.callee_decl(t)})
+    ctx.check(not uni, "TABLE", "C06:TABLE:no-unicode-trim", "no scalar parser trims with str::trim", "%s trim(s) with str::trim, which strips any Unicode white space: `12\\u{a0}` is accepted as the integer 12" % uni, config, ctx.where(tb))
+    users = sorted({g.npath for g in readers for b, t in g.calls() if fx.callee(t) == tb.npath})
+    ctx.floor("TABLE.trim-users", len(users), 6, config)
+
+
+def _walk(sym):
+    if isinstance(sym, tuple):
+        yield sym
+        for x in sym:
+            if isinstance(x, (tuple, list)):
+                for y in (x if isinstance(x, list) else [x]):
+                    yield from _walk(y)
+
+
 def rule_wire(ctx, fx, config):
     f = fx.fn("de::Cfg::from_options")
     ctx.saw(f)
@@ -409,5 +441,6 @@ def run(ctx):
         rule_literal_tables(ctx, fx, config)
         rule_style(ctx, fx, config)
         rule_any_order(ctx, fx, config)
+        rule_trim(ctx, fx, config)
         rule_wire(ctx, fx, config)
         rule_base64(ctx, fx, config)
